@@ -137,6 +137,23 @@ func VH21a_listener() {
 		}
 		verif.Assert(verif.BytesEq(wire, want), "C15/tcp/frame-bytes")
 	}
+	// and what the independent codec writes is parsed by mangos: a frame with arbitrary bytes arrives unchanged
+	{
+		in := verif.Bytes("in", verif.Choice("ilen", 3))
+		fr := vnet.Frame(in)
+		if _, _, ipc := scheme(); ipc {
+			fr = append([]byte{1}, fr...)
+		}
+		c2.PeerSend(fr)
+		var got []byte
+		var rerr error
+		rg := verif.Go("recv", func() { got, rerr = sock.Recv() })
+		verif.Quiesce()
+		verif.Assert(rg.Done() && rerr == nil, "C15/tcp/conforming-frame-not-accepted")
+		if rg.Done() && rerr == nil {
+			verif.Assert(len(got) == len(in) && verif.BytesEq(got, in), "C01/tcp/frame-changed")
+		}
+	}
 	// pipe addresses describe the connection (C13)
 	if len(h.pipes) > 0 {
 		p := h.pipes[len(h.pipes)-1]
@@ -256,6 +273,42 @@ func VH21b_dialer() {
 		verif.FireTimer()
 		verif.Assert(n >= 2, lab+"/dialer-stopped-redialling")
 		verif.Reach("redialled-after-loss")
+	}
+	// traffic on the dialed connection, both directions, against the independent codec (C15, C01)
+	{
+		var last *vnet.Conn
+		for _, c := range conns {
+			if !c.Closed {
+				last = c
+			}
+		}
+		if last != nil && attached > 0 {
+			_, _, ipc := scheme()
+			n0 := len(last.Out)
+			body := verif.Bytes("body", verif.Choice("blen", 3))
+			verif.Assert(sock.Send(body) == nil, lab+"/send")
+			verif.Quiesce()
+			want := vnet.Frame(body)
+			if ipc {
+				want = append([]byte{1}, want...)
+			}
+			verif.Assert(verif.BytesEq(last.Out[n0:], want) && len(last.Out[n0:]) == len(want), "C15/tcp/frame-bytes")
+			in := verif.Bytes("in", verif.Choice("ilen", 3))
+			fr := vnet.Frame(in)
+			if ipc {
+				fr = append([]byte{1}, fr...)
+			}
+			last.PeerSend(fr)
+			var got []byte
+			var rerr error
+			rg := verif.Go("recv", func() { got, rerr = sock.Recv() })
+			verif.Quiesce()
+			verif.Assert(rg.Done() && rerr == nil, "C15/tcp/conforming-frame-not-accepted")
+			if rg.Done() && rerr == nil {
+				verif.Assert(len(got) == len(in) && verif.BytesEq(got, in), "C01/tcp/frame-changed")
+			}
+			verif.Reach("dialer-traffic")
+		}
 	}
 	// a dialed pipe describes its connection and the endpoint that made it (C13)
 	if len(dialed) > 0 {
